@@ -129,9 +129,17 @@ func (h *histories) check(seq []int) {
 			}
 		}
 	}
+	// the earlier actions are named by package and option only: which of the
+	// three targets primed the cache is not a different defect
 	var before []string
 	for _, ai := range min[:len(min)-1] {
-		before = append(before, actions[ai].String())
+		b := actions[ai].pkg + ".plain"
+		if actions[ai].omit {
+			b = actions[ai].pkg + ".OmitEmpty"
+		}
+		if len(before) == 0 || before[len(before)-1] != b {
+			before = append(before, b)
+		}
 	}
 	sort.Strings(before)
 	act := actions[a]
